@@ -53,7 +53,7 @@ def specs(tier):
                                 idx = len(out)
                                 out.append({
                                     "kind": kind, "is_async": is_async, "dbc": dbc, "levels": levels,
-                                    "style": (("def", "lambda", "adef")[idx % 3] if is_async else ("def", "lambda")[idx % 2]),
+                                    "style": (("def", "lambda", "adef", "amix")[idx % 4] if is_async else ("def", "lambda")[idx % 2]),
                                     "err": ("default", "cls", "fac", "inst")[(idx // 2) % 4],
                                     "layout": ("grouped", "interleaved")[(idx // 8) % 2],
                                     "foreign": foreign, "err_base": idx % 5 == 3,
